@@ -324,6 +324,34 @@ def job_autocrash(job, tmp):
             "ref_t": rt[:40], "t": gt[:40], "cycles": done}
 
 
+def job_autoF(job, tmp):
+    """interval cadence in binary64: the heartbeat times (before every step and after each integrate call), the library's
+    snapshot times and the final accumulated threshold simulationarchive_next"""
+    fname = os.path.join(tmp, "af.bin")
+    if os.path.exists(fname):
+        os.remove(fname)
+    sim = L.new_sim(rebound, job["spec"])
+    for _ in range(job.get("presteps", 0)):
+        sim.step()
+    twin = sim.copy()
+    sim.save_to_file(fname, interval=job["interval"])
+    next0 = sim.simulationarchive_next
+    xs = []
+    for c in job["chunks"]:
+        sim.integrate(sim.t + (c - 0.5) * sim.dt, exact_finish_time=0)
+        xs.append(twin.t)
+        while twin.steps_done < sim.steps_done:
+            twin.step(); xs.append(twin.t)
+    if not os.path.exists(fname):
+        return {"xs": [x.hex() for x in xs], "sign": (1.0 if sim.dt > 0 else -1.0), "interval": job["interval"], "next0": next0.hex(),
+                "lib_t": [], "final_next": sim.simulationarchive_next.hex(), "same_t": twin.t == sim.t}
+    sa = rebound.Simulationarchive(fname, process_warnings=False)
+    # index times are reliable here only through the snapshots themselves (a snapshot at the time of snapshot 0 is fine since 38095ff)
+    lt = [sa.t[i] for i in range(sa.nblobs)]
+    return {"xs": [x.hex() for x in xs], "sign": (1.0 if sim.dt > 0 else -1.0), "interval": job["interval"], "next0": next0.hex(),
+            "lib_t": [x.hex() for x in lt], "final_next": sim.simulationarchive_next.hex(), "same_t": twin.t == sim.t}
+
+
 def job_spoof(job, tmp):
     """crafted particle coordinates that look like END ++ trailer with a consistent back-link, crash right behind them,
     then the user's recovery: open, restart from the last snapshot, step, append twice.  cut_delta=0: spoof, -1: control"""
@@ -386,7 +414,7 @@ def main():
     with tempfile.TemporaryDirectory(prefix="c06drv") as tmp:
         for job in jobs:
             try:
-                r = {"hist": job_hist, "auto": job_auto, "open": job_open, "resume": job_resume, "spoof": job_spoof, "cycle": job_cycle, "many": job_many, "attach": job_attach, "autocrash": job_autocrash}[job["kind"]](job, tmp)
+                r = {"hist": job_hist, "auto": job_auto, "open": job_open, "resume": job_resume, "spoof": job_spoof, "cycle": job_cycle, "many": job_many, "attach": job_attach, "autocrash": job_autocrash, "autoF": job_autoF}[job["kind"]](job, tmp)
             except Exception as e:
                 import traceback
                 r = {"exception": "%r" % (e,), "tb": traceback.format_exc()[-600:]}
